@@ -56,14 +56,14 @@ type stepOut struct {
 }
 
 type opOut struct {
-	Name    string     `json:"name"`
-	Func    string     `json:"func"`
-	Kind    string     `json:"kind"`
-	Threads []string   `json:"threads"`
-	Segs    []*segOut  `json:"segs"`
-	Steps   []stepOut  `json:"steps"`
-	Reach   []string   `json:"reach,omitempty"`
-	Index   int        `json:"index"`
+	Name    string    `json:"name"`
+	Func    string    `json:"func"`
+	Kind    string    `json:"kind"`
+	Threads []string  `json:"threads"`
+	Segs    []*segOut `json:"segs"`
+	Steps   []stepOut `json:"steps"`
+	Reach   []string  `json:"reach,omitempty"`
+	Index   int       `json:"index"`
 }
 
 func main() {
@@ -287,7 +287,7 @@ func main() {
 			unreached = append(unreached, r.spec.name)
 			continue
 		}
-		o := &opOut{Name: r.spec.name, Func: a.fnName(r.spec.fn), Kind: r.spec.kind, Threads: r.spec.threads}
+		o := &opOut{Name: r.spec.name, Func: a.fnName(r.spec.fn), Kind: r.spec.kind, Threads: r.spec.threads, Segs: []*segOut{}, Steps: []stepOut{}}
 		rename := func(s string) string {
 			if r.spec.role != "" && strings.HasPrefix(s, "LevelDBStore.") {
 				return "LevelDBStore" + r.spec.role + "." + strings.TrimPrefix(s, "LevelDBStore.")
@@ -300,8 +300,13 @@ func main() {
 			ls := e.Locks
 			var lk [][2]string
 			var kb strings.Builder
+			dup := map[string]bool{}
 			for _, h := range ls {
 				id := rename(h.ID)
+				if dup[id] {
+					continue // re-entrant RLock of a lock this goroutine already holds
+				}
+				dup[id] = true
 				lk = append(lk, [2]string{id, string(h.Mode)})
 				kb.WriteString(id + ":" + string(h.Mode) + ",")
 				lockSet[id] = true
@@ -508,6 +513,11 @@ func renderTLA(module string, ops []*opOut, locks []string) string {
 		}
 		sb.WriteString(">>]")
 	}
-	sb.WriteString("\n>>\n\n====\n")
+	sb.WriteString("\n>>\n\n")
+	sb.WriteString("\\* concurrency relation (see Locks.tla)\n")
+	sb.WriteString("MultiThreadsDef == {\"http\", \"raft\"}\n")
+	sb.WriteString("SerialPairsDef == {{\"FSM.Snapshot\", \"robustSnapshot.Persist\"}}\n\n")
+	sb.WriteString("\\* run parameters (rewritten by checks/c20.py for the individual TLC runs)\n")
+	sb.WriteString("NSlotsDef == 2\nOnlyOpsDef == {}\nReportDef == TRUE\n\n====\n")
 	return sb.String()
 }
